@@ -170,6 +170,8 @@ def rule_duplicates(ctx):
 
 
 def run(ctx):
+    from ..rules import extra as _X6
+    _X6.rule_tuplet_ratio_rounded(ctx)
     from ..rules import extra as _X4
     _X4.rule_tie_group_dissolved_completely(ctx)
     T.duration_tables(ctx)
